@@ -13,6 +13,7 @@ B  code -> spec: random call sequences on real arrays (integer-valued data and
 """
 import json
 import random
+import os
 import warnings
 
 import numpy as np
@@ -170,6 +171,33 @@ def dither(run, tier):
             if not flag and not np.array_equal(arg, x):
                 run.violation({"kind": ("preemph" if isinstance(op, pre.Preemphasize) else "dither") + "_modified_input", "in_place": repr(flag),
                                "dtype": "float64", "n": 40})
+    # the signal may be an ndarray subclass (a memory-mapped recording, a user's own subclass): still untouched
+    import tempfile
+
+    class Recording(np.ndarray):
+        pass
+    with tempfile.TemporaryDirectory(prefix="verif_c18_") as tmpd:
+        base = (np.arange(60) * 3 - 7).astype(np.float64)
+        mm = np.memmap(os.path.join(tmpd, "sig.f8"), dtype=np.float64, mode="w+", shape=(60,))
+        mm[:] = base
+        mm.flush()
+        for label, arg in (("ndarray subclass", base.copy().view(Recording)), ("memmap r+", mm)):
+            for op in (pre.Preemphasize(0.9), pre.Dither(0.5)):
+                name = "preemph" if isinstance(op, pre.Preemphasize) else "dither"
+                run.evaluations += 1
+                try:
+                    np.random.seed(3)
+                    got = op.apply(arg)
+                    np.random.seed(3)
+                    want = op.apply(base.copy())
+                except Exception as e:
+                    run.violation({"kind": name + "_raised", "dtype": "float64", "n": 60, "input": label, "error": repr(e)})
+                    continue
+                if not np.array_equal(np.asarray(got), want):
+                    run.violation({"kind": "in_place_flag_changes_values", "op": type(op).__name__, "input": label})
+                if not np.array_equal(np.asarray(arg), base):
+                    run.violation({"kind": name + "_modified_input", "in_place": "False", "dtype": "float64", "n": 60, "input": label})
+        del mm
     # `coeff` is a public attribute: what counts is its value when apply() is called, not when the object was built
     for (c1, c2) in ((1.0, 0.0), (0.0, 2.0), (1.0, 3.0)):
         x = (np.arange(50) * 3 - 7).astype(np.float64)
